@@ -122,11 +122,14 @@ func RunC11(c *Ctx) error {
 
 	// Pass 1: references (identity plan) and fidelity runs with the real binary.
 	type cfg struct {
-		gi    int
-		flags []string
-		ref   *engine.Result
-		real  *engine.Result
-		realN [3]*engine.Result
+		gi      int
+		flags   []string
+		out     string // -o
+		pkg     string // -p
+		outLink string
+		ref     *engine.Result
+		real    *engine.Result
+		realN   [3]*engine.Result
 	}
 	var cfgs []*cfg
 	for gi, gc := range cases {
@@ -142,11 +145,20 @@ func RunC11(c *Ctx) error {
 			cfgs = append(cfgs, &cfg{gi: gi, flags: flags})
 		}
 	}
+	// -o together with -p (in either order), and an output directory reached through a
+	// symbolic link that does not exist before the first run
+	for gi, gc := range cases {
+		switch gc.ID {
+		case "calc", "errdeep", "lexonly":
+			cfgs = append(cfgs, &cfg{gi: gi, flags: mergeFlags(gc.NeedFlags, nil), out: "gen", pkg: engine.ModuleName + "/vendored/" + gc.ID})
+			cfgs = append(cfgs, &cfg{gi: gi, flags: mergeFlags(gc.NeedFlags, nil), out: "lnk/fresh", outLink: "lnk->real/out"})
+		}
+	}
 	identity := simrt.Plan{Map: simrt.MapPlan{Policy: "identity"}, Clock: 1700000000, Pid: 4242, TickBudget: 4e9}
 	err = c.ShardedDo(len(cfgs), func(i int) int { return i }, func(w, i int) error {
 		cf := cfgs[i]
 		gc := cases[cf.gi]
-		spec := engine.Spec{GrammarID: gc.ID, GrammarText: gc.Text, GrammarFile: gc.File, Flags: cf.flags}
+		spec := engine.Spec{GrammarID: gc.ID, GrammarText: gc.Text, GrammarFile: gc.File, Flags: cf.flags, OutSpec: cf.out, Pkg: cf.pkg, OutLink: cf.outLink}
 		r, err := workers[w].Exec(g.Real, &spec, timeout)
 		if err != nil {
 			return err
@@ -190,7 +202,7 @@ func RunC11(c *Ctx) error {
 	}
 	for ci, cf := range cfgs {
 		gc := cases[cf.gi]
-		base := engine.Spec{GrammarID: gc.ID, GrammarText: gc.Text, GrammarFile: gc.File, Flags: cf.flags}
+		base := engine.Spec{GrammarID: gc.ID, GrammarText: gc.Text, GrammarFile: gc.File, Flags: cf.flags, OutSpec: cf.out, Pkg: cf.pkg, OutLink: cf.outLink}
 		r := prng.Sub(c.Seed, "c11/"+gc.ID+"/"+strings.Join(cf.flags, ","), ci)
 		addPlan := func(label string, mp simrt.MapPlan, rerun bool) {
 			p := simrt.Plan{Map: mp, Clock: 1700000000 + int64(r.Intn(1<<30)), Rand: r.U64(), Pid: 2 + r.Intn(60000), Host: fmt.Sprintf("h%d", r.Intn(100)), TickBudget: 4e9}
@@ -211,6 +223,26 @@ func RunC11(c *Ctx) error {
 		}
 		big := c.Tier == "quick" && gc.IR != nil && gc.IR.Big
 		addPlan("reverse", simrt.MapPlan{Policy: "reverse"}, false)
+		if len(cf.flags) >= 1 {
+			// the same invocation spelled differently: flags in another order, --flag=true
+			// forms, ./ in front of the grammar file (identity plan: nothing else varies)
+			addPlan("respelled", simrt.MapPlan{Policy: "identity"}, false)
+			j := jobs[len(jobs)-1]
+			var fl []string
+			for i := len(cf.flags) - 1; i >= 0; i-- {
+				f := cf.flags[i]
+				if i%2 == 0 {
+					f = "-" + f + "=true"
+				}
+				fl = append(fl, f)
+			}
+			j.spec.Flags = fl
+			j.spec.GrammarDir = "."
+		}
+		if cf.pkg != "" && cf.out != "" {
+			addPlan("p-before-o", simrt.MapPlan{Policy: "identity"}, false)
+			jobs[len(jobs)-1].spec.PkgFirst = true
+		}
 		if !big {
 			addPlan("rotate", simrt.MapPlan{Policy: "rotate", Seed: r.U64()}, false)
 		}
@@ -293,7 +325,7 @@ func RunC11(c *Ctx) error {
 		o := obsJobs[i]
 		cf := cfgs[o.ci]
 		gc := cases[cf.gi]
-		spec := engine.Spec{GrammarID: gc.ID, GrammarText: gc.Text, GrammarFile: gc.File, Flags: cf.flags, GOMAXPROCS: o.mp}
+		spec := engine.Spec{GrammarID: gc.ID, GrammarText: gc.Text, GrammarFile: gc.File, Flags: cf.flags, OutSpec: cf.out, Pkg: cf.pkg, OutLink: cf.outLink, GOMAXPROCS: o.mp}
 		r, err := workers[w].Exec(g.Real, &spec, timeout)
 		if err != nil {
 			return err
@@ -331,7 +363,7 @@ func RunC11(c *Ctx) error {
 		err = c.ShardedDo(len(rjobs), func(i int) int { return rjobs[i].ci }, func(w, i int) error {
 			cf := cfgs[rjobs[i].ci]
 			gc := cases[cf.gi]
-			spec := engine.Spec{GrammarID: gc.ID, GrammarText: gc.Text, GrammarFile: gc.File, Flags: cf.flags, GOMAXPROCS: 16, RaceLog: true}
+			spec := engine.Spec{GrammarID: gc.ID, GrammarText: gc.Text, GrammarFile: gc.File, Flags: cf.flags, OutSpec: cf.out, Pkg: cf.pkg, OutLink: cf.outLink, GOMAXPROCS: 16, RaceLog: true}
 			r, err := workers[w].Exec(g.Race, &spec, timeout)
 			if err != nil {
 				return err
@@ -345,7 +377,7 @@ func RunC11(c *Ctx) error {
 		for _, rj := range rjobs {
 			cf := cfgs[rj.ci]
 			gc := cases[cf.gi]
-			spec := engine.Spec{GrammarID: gc.ID, GrammarText: gc.Text, GrammarFile: gc.File, Flags: cf.flags, GOMAXPROCS: 16, RaceLog: true}
+			spec := engine.Spec{GrammarID: gc.ID, GrammarText: gc.Text, GrammarFile: gc.File, Flags: cf.flags, OutSpec: cf.out, Pkg: cf.pkg, OutLink: cf.outLink, GOMAXPROCS: 16, RaceLog: true}
 			if strings.Contains(rj.res.RaceText, "DATA RACE") {
 				c.Report(&Violation{Class: "data-race-in-generator", Key: map[string]string{"grammar": gc.ID},
 					Detail: fmt.Sprintf("%s %v: gocc built with the race detector reports an unsynchronised access between its own goroutines (its outcome cannot be independent of scheduling): %s", gc.ID, cf.flags, oneLine(clipStr(rj.res.RaceText, 900), 900)),
@@ -405,7 +437,7 @@ func RunC11(c *Ctx) error {
 		obsRuns++
 		if d := o.diff; d != "" {
 			gc := cases[cf.gi]
-			spec := engine.Spec{GrammarID: gc.ID, GrammarText: gc.Text, GrammarFile: gc.File, Flags: cf.flags, GOMAXPROCS: o.mp}
+			spec := engine.Spec{GrammarID: gc.ID, GrammarText: gc.Text, GrammarFile: gc.File, Flags: cf.flags, OutSpec: cf.out, Pkg: cf.pkg, OutLink: cf.outLink, GOMAXPROCS: o.mp}
 			c.Report(&Violation{Class: "real-binary-rerun-differs", Key: map[string]string{"grammar": gc.ID},
 				Detail: fmt.Sprintf("uninstrumented gocc, GOMAXPROCS=%d, %s %v: %s", o.mp, gc.ID, cf.flags, d),
 				Plan:   c11Replay{Spec: spec}})
